@@ -9,17 +9,44 @@ from ..core import Case
 
 ID = 'C09'
 MANIFEST = {
-    'text': 'TODO',
-    'note': 'TODO',
-    'technique': 'state-machine refinement (Coq) + recorded histories replayed through the model inside Coq',
+    'text': ('Coq state-machine models of IndexGO (labels list, AutoMap / loc_is_iloc, count, array cache), TypeBlocks.append/extend '
+             '(_blocks/_index/_dtypes/_shape/_row_dtype), FrameGO.__setitem__/extend_items/extend, IndexLevelGO.append/extend and a world of '
+             'frames holding references to their mutable members. Proved (unbounded, all histories / layouts / depths): specification laws '
+             'C09_index_spec_append_only/_no_duplicates/_all_or_nothing, C09_frame_spec_append_only/_all_or_nothing; refinement M = S inside an '
+             'explicit guard C09_index_refines, C09_frame_refines (+ C09_frame_lockstep, C09_index_reader, C09_frame_reader: every label leads to '
+             'its column), C09_blocks_append, C09_blocks_column_read, C09_hier_append; unconditional C09_index_labels_never_lost, '
+             'C09_index_append_atomic, C09_hier_append_rejected; never shared: C09_never_shared and C09_growth_isolated over every interleaving of '
+             'growth with to_frame/to_frame_go/to_frame_he/Frame(f)/FrameGO(f)/FrameHE(f), stated over decision tables REGENERATED from the AST of '
+             'frame.py/container_util.py/index.py/type_blocks.py on every run (C09_index_filters_copy_across_the_boundary). Refuted/C09.v: six '
+             'witnesses that the guards are necessary (the known findings). Correspondence: recorded histories of the real containers (valid, '
+             'duplicate, partially duplicate, wrong length, 2-D, unaligned index, wrong depth) replayed through M and S inside Coq after every '
+             'step; object identity of _columns/_blocks between all live frames compared with the world model; ~100 public derivations x 13 '
+             'sources grown in both directions with every other live container re-read and mutable members compared by identity.'),
+    'note': ('trusted: Coq kernel, the hand-written models (tied to /repo by the histories of this run and, for sharing, by the regenerated tables), '
+             'the AST extractor generate() (fail closed), py2v for util.resolve_dtype, the harness. Partial: which of the other ~160 own_* call '
+             'sites alias is observed (derivation sweep, call sites counted in the evidence), not proved; IndexHierarchyGO.extend and reads of '
+             'corrupted states are modelled and compared but not covered by a refinement theorem; label equality is Python == restricted to '
+             'labels without NaN; IndexDateGO and other typed grow-only indices are not exercised.'),
+    'technique': 'state-machine refinement (Coq) + recorded histories replayed through the model inside Coq + regenerated decision tables',
 }
 PROPERTY_FILES = ['Properties/C09.v']
 REFUTED_FILES = ['Refuted/C09.v']
 MODEL_FILES = ['SF/GrowOnly.v', 'SF/GrowOnlyHier.v', 'SF/GrowOnlyShare.v', 'Gen/Gen_c09.v', 'SF/GrowOnlyWorld.v', 'SF/GrowOnlyVal.v']
 IMPORTS = 'Require Import SF.Prelude SF.Dtype SF.Value SF.GrowOnly SF.GrowOnlyHier SF.GrowOnlyShare Gen.Gen_c09 SF.GrowOnlyWorld SF.GrowOnlyVal.'
-RULE = 'TODO'
-ASSUMPTIONS = []
-TRUSTED = []
+RULE = ('a case is one HISTORY on one real container (or world of containers): construction, then growth calls (and reads / conversions), with '
+        'the outcome class of every call and a snapshot of every live container after (almost) every step; strata: corpus (minimal replays of the '
+        'known findings), exhaustive (all histories up to length N over a small alphabet of calls that contains every argument class: valid, '
+        'duplicate, partially duplicate, rejected-at-first, wrong length, unaligned, empty, read), random (bigger shapes, all block layouts via '
+        'zoo, dtypes int/float/bool/str/object, fill values), world (every class x conversion x conversion with growth in between, identity of '
+        'members observed), sharing (every curated + every zero-argument public derivation of 7 frame and 6 index sources, growth in both '
+        'directions). Non-trivial = at least one accepted growth call / a grow-only container involved; distinct = distinct history.')
+ASSUMPTIONS = ['labels are compared with Python == (1 == 1.0 == True); NaN labels are outside the model',
+               'cells are observed through tolist(): floats are exact dyadic rationals by construction of the generators',
+               'np.array(list).dtype is the dtype iterable_to_array_1d derives for the homogeneous lists the generators build',
+               'AutoMap / FrozenAutoMap: insertion-ordered, rejects equal keys (oracle, exercised by every IndexGO history)',
+               'util.resolve_dtype is the regenerated Gen.Gen_util.resolve_dtype (np.result_type oracle of SF/Dtype.v)',
+               'int -> float casts of the small integers used are exact']
+TRUSTED = ['tools/sfv/props/c09.py:generate -- AST pattern extractor for the sharing decision tables (fails closed on any other shape)']
 EXHAUSTIVE = {'quick': False, 'thorough': False}
 TRANSLATED = ['resolve_dtype']
 
@@ -155,9 +182,9 @@ def index_exhaustive(ctx):
     N = 3 if ctx.tier == 'quick' else 4
     alphabets = [
         (False, ['a'], [('append', 'a'), ('append', 'b'), ('extend', ['b', 'c']), ('extend', ['c', 'a']),
-                        ('extend', ['a', 'c']), ('extend', ['c', 'c']), ('extend', []), ('read',)]),
+                        ('extend', ['a', 'c']), ('extend', ['d']), ('extend', []), ('read',)]),
         (True, [0, 1], [('append', 2), ('append', 1), ('append', 1.0), ('append', 'x'), ('append', 3),
-                        ('extend', [2, 3]), ('extend', [5, 1]), ('append', True), ('read',)]),
+                        ('extend', [2, 3]), ('extend', [1, 5]), ('append', True), ('read',)]),
     ]
     for auto, labels, alpha in alphabets:
         for n in range(1, N + 1):
@@ -247,6 +274,7 @@ def index_random(ctx, count):
 CORPUS_INDEX = [
     # (auto, labels, ops): minimal replays of the known findings
     (False, ['a', 'b'], [('extend', ['c', 'a', 'd']), ('read',), ('append', 'e')]),
+    (False, ['a', 'b'], [('extend', ['c', 'c'])]),
     (True, [0, 1, 2], [('append', 1.0), ('append', 3), ('read',)]),
 ]
 
@@ -384,7 +412,7 @@ def apply_frame_op(g, op):
                                        columns=op['fcols'] if cols else None, cls=cls)
         exc = _call(lambda: g.extend(other) if default_fill else g.extend(other, fill_value=fill))
         blocks = lit.lst([_blk_lit(b) for b in other._blocks._blocks])
-        return exc, f'(OExtFrame {lit.vlist(op["fidx"])} {lit.vlist(op["fcols"])} {blocks} {fl})'
+        return exc, f'(OExtFrame {lit.vlist(op["fidx"])} {lit.vlist(_as_index_labels(op["fcols"]))} {blocks} {fl})'
     raise ValueError(kind)
 
 
@@ -485,6 +513,13 @@ def _j_value(v):
     return [str(np.dtype(x)) if isinstance(x, (np.dtype, type)) else _j(x) for x in v]
 
 
+def _as_index_labels(labels):
+    """The labels as a (static) Index holds them: NumPy turns a mix of ints and floats into floats."""
+    if labels and all(isinstance(x, (int, float)) and not isinstance(x, bool) for x in labels) and any(isinstance(x, float) for x in labels):
+        return [float(x) for x in labels]
+    return list(labels)
+
+
 def classify_frame_ops(init, ops):
     """Finding class BY CONSTRUCTION (first met): see classify_index_ops."""
     auto = init['labels'] is None
@@ -502,7 +537,7 @@ def classify_frame_ops(init, ops):
         elif kind == 'ext_series':
             seq, partial = [(op['name'], True)], None
         else:
-            seq, partial = [(k, True) for k in op['fcols']], F_FRM_EXT
+            seq, partial = [(k, True) for k in _as_index_labels(op['fcols'])], F_FRM_EXT
         added = []
         rejected = False
         for k, (v, valid) in enumerate(seq):
